@@ -81,10 +81,13 @@ func ensureFileExists(path string, mode os.FileMode) error {
 	if !errors.Is(err, os.ErrNotExist) {
 		return err
 	}
-	if err := os.WriteFile(path, []byte{}, mode); err != nil {
+	// Create without truncating: init takes no lock, so between the Stat above and this call
+	// another process may have created the file and written to it; os.WriteFile would empty it.
+	file, err := os.OpenFile(path, os.O_RDONLY|os.O_CREATE, mode)
+	if err != nil {
 		return fmt.Errorf("cannot create %s: %w", path, err)
 	}
-	return nil
+	return file.Close()
 }
 
 func newEvent(eventType string, ts time.Time, payload interface{}) (Event, error) {
